@@ -23,6 +23,12 @@ func checkAny(raw json.RawMessage) error {
 		}
 		_, err := checkPK(&pc)
 		return err
+	case bbCampaign:
+		err := replayBB(raw)
+		if inc, ok := err.(ev.InconclusiveError); ok {
+			return inconclusive(string(inc))
+		}
+		return err
 	case "bloom", "minmax", "set":
 		var sc SKCase
 		if err := json.Unmarshal(raw, &sc); err != nil {
